@@ -78,6 +78,8 @@ struct MemFile {
   bool closed = false;
   bool record_payload = false;
   size_t nreads = 0;
+  size_t total_written = 0, oversize_writes = 0;
+  bool allow_huge = false;
   static ssize_t rd(void *c, char *buf, size_t n) {
     MemFile *m = (MemFile *)c;
     m->nreads++;
@@ -90,6 +92,17 @@ struct MemFile {
   static ssize_t wr(void *c, const char *buf, size_t n) {
     MemFile *m = (MemFile *)c;
     if (n == 0) return 0;
+    m->total_written += n;
+    if (n > ((size_t)1 << 28) && !m->allow_huge) {
+      // an absurd write (e.g. a length that wrapped around): log it, keep a small prefix, do not try to store it
+      m->writes.push_back({m->pos, n});
+      m->oversize_writes++;
+      size_t k = 4096;
+      if (m->pos + k > m->data.size()) m->data.resize(m->pos + k);
+      memcpy(m->data.data() + m->pos, buf, k);
+      m->pos += k;
+      return (ssize_t)n;
+    }
     if (m->pos + n > m->data.size()) m->data.resize(m->pos + n);
     memcpy(m->data.data() + m->pos, buf, n);
     m->writes.push_back({m->pos, n});
